@@ -17,7 +17,7 @@ From HL7 Require Import Lib.Str Model.Ec Model.Result Model.Ref Model.Tree Model
      Model.MsgTree Model.Validate Model.Wf.
 From HL7 Require Import Proofs.RoundTripStr Proofs.RoundTripCore Proofs.RoundTripSeg Proofs.NoDrop Proofs.NoCrash
      Proofs.StrictSubset Proofs.ValidateTotal.
-From HL7 Require Proofs.ValidateFacts Proofs.EncodeLeaves.
+From HL7 Require Proofs.ValidateFacts Proofs.EncodeLeaves Proofs.StrictSim Proofs.RoundTripMsg.
 Import ListNotations.
 Open Scope bs_scope.
 Open Scope res_scope.
@@ -358,4 +358,844 @@ Proof.
 Qed.
 
 End Val.
+
+(* ------------------------------------------------------------------ *)
+(* what the parser builds under STRICT (partial correctness, any leaf)   *)
+
+Hypothesis Hst : base (Some (unbs "ST")) = true.
+Hypothesis Hvar : base (Some (unbs "varies")) = false.
+Hypothesis Hgf : forall n r, slookup n (t_fields t) = Some r -> gref t r.
+Hypothesis Hgs : forall n r, length n <= 3 -> slookup n (t_segments t) = Some r -> gseg t n r.
+(* no datatype struct is called VARIES... *)
+Hypothesis Hnv : forall d rows, slookup d (t_structs t) = Some rows -> bstarts (unbs "VARIES") d = false.
+(* no component of the table is called D_j beyond the components the struct D defines, for the
+   datatypes D of field references (v2.3 has CM_CP_3 beyond the two components of the struct CM_CP,
+   which only occurs below a component) *)
+Definition nx_ref (r : sref) : Prop :=
+  forall i d rows, r = SSeqDt i -> i_dt i = Some d -> slookup d (t_structs t) = Some rows ->
+  forall j, length rows < j -> slookup (name_idx d j) (t_components t) = None.
+Hypothesis HnxF : forall n r, slookup n (t_fields t) = Some r -> nx_ref r.
+Hypothesis HnxI : forall n rows, slookup n (t_segments t) = Some (SSeqIn false rows None) ->
+  forall row k m r mn mx, In row rows -> row = SIn k m r mn mx -> nx_ref r.
+
+Definition cplx (dt : option str) : Prop := exists d, dt = Some d /\ base dt = false /\ is_varies dt = false.
+
+Lemma gref_cplx i : gref t (SSeqDt i) -> cplx (i_dt i) /\
+  exists d, i_dt i = Some d /\ d <> [] /\ upper d = d /\ bstarts (unbs "VARIES") d = false.
+Proof.
+  cbn [gref]. intros [d [rows [Hd [Hne [Hu [Hb [Hl _]]]]]]]. split.
+  - exists d. split; [exact Hd|]. rewrite Hd. split; [exact Hb|]. now apply upper_not_lower_varies.
+  - exists d. repeat (split; [assumption|]). exact (Hnv _ _ Hl).
+Qed.
+
+Lemma ref_dt_parse r st : parse_structure t r = Ok st -> st_dt (Some st) = ref_dt r.
+Proof. intros H. unfold st_dt, ref_dt. now rewrite (proj1 (parse_structure_info t r st H)). Qed.
+
+(* CanBeVaries.__init__(name, datatype=None, reference) for a name that is not VARIES_i: the element is
+   built on the component table's entry of its name *)
+Lemma canbevaries_named lvl is_sub n0 reference : n0 <> [] -> ogref t reference ->
+  can_ref (t_components t) (Some n0) reference ->
+  valid_child_name (Some n0) (Some (unbs "VARIES")) = false ->
+  pc (fun p => fst (fst p) = Some (upper n0) /\
+               exists r s, slookup (upper n0) (t_components t) = Some r /\ gref t r /\ parse_structure t r = Ok s /\
+                           snd p = Some s /\ snd (fst p) = ref_dt r)
+     (canbevaries t lvl is_sub (Some n0) None reference).
+Proof.
+  intros Hne Hr Hcan Hv. unfold canbevaries. change (is_varies None) with false. cbn [andb].
+  rewrite !andb_false_r. cbn [andb bind]. rewrite Hv.
+  assert (S : exists r, slookup (upper n0) (t_components t) = Some r /\ gref t r /\
+                        structure_for t CMP (upper n0) reference = parse_structure t r \/
+              structure_for t CMP (upper n0) reference = Err (HL7 EInvalidName)).
+  { unfold structure_for. destruct reference as [r|].
+    - exists r. left. split; [now apply Hcan|]. split; [exact Hr|reflexivity].
+    - unfold load_reference. cbn [table_of]. destruct (slookup (upper n0) (t_components t)) as [r|] eqn:E.
+      + exists r. left. split; [reflexivity|]. split; [exact (Hgc _ _ E)|reflexivity].
+      + exists SBad. now right. }
+  destruct S as [r [[E [G S]]|S]]; rewrite S; [|exact I].
+  destruct (gref_parse t r G) as [s [Hp _]]. rewrite Hp. cbn [bind].
+  destruct (is_sub && _); [exact I|].
+  match goal with |- sp _ _ (if ?b then _ else _) => destruct b; [exact I|] end.
+  destruct (upper n0) as [|c n'] eqn:U.
+  { exfalso. apply Hne. destruct n0; [reflexivity|discriminate]. }
+  cbn.
+  split; [reflexivity|]. exists r, s. repeat (split; [reflexivity || assumption|]). exact (ref_dt_parse r s Hp).
+Qed.
+
+(* an unnamed element gets its datatype as name *)
+Lemma canbevaries_unnamed lvl is_sub d reference : dt_simple t (Some d) ->
+  pc (fun p => fst (fst p) = snd (fst p)) (canbevaries t lvl is_sub None (Some d) reference).
+Proof.
+  intros Hd. unfold canbevaries.
+  match goal with |- sp _ _ (bind ?X _) => destruct X as [r0|x] end; cbn [bind]; [|exact I].
+  change (valid_child_name None (Some (unbs "VARIES"))) with false. cbn beta iota.
+  match goal with |- sp _ _ (bind ?X _) => destruct X as [[nm st]|x] eqn:E end; cbn [bind]; [|exact I].
+  assert (nm = None).
+  { destruct r0 as [r|]; [|now injection E as <- _].
+    destruct (parse_structure t r); cbn [bind] in E; [|discriminate]. now injection E as <- _. }
+  subst nm. destruct (is_sub && _); [exact I|]. cbn beta iota.
+  apply (sp_bind anyx (fun p => p = (Some d, st))); [now apply (set_datatype_ctor_simple t)|].
+  intros [dt st'] E'. injection E' as -> ->. reflexivity.
+Qed.
+
+Section ParseS.
+Variable e : ec.
+Variable leaf : option str -> str -> result str.
+Notation lvl := STRICT.
+
+Definition psub (st : option structure) (x : sub) : Prop :=
+  sub_unknown x = true \/
+  exists n, sc_name x = Some n /\ (forall r, slookup n (t_components t) = Some r -> sc_dt x = ref_dt r) /\
+            (has_map st = true -> ref_in st n <> None).
+
+Lemma mk_subcomponent_unnamed d value reference : dt_simple t (Some d) ->
+  pc (fun x => sub_unknown x = true) (mk_subcomponent t lvl leaf None (Some d) value reference).
+Proof.
+  intros Hd. unfold mk_subcomponent. cbn [andb].
+  apply (sp_bind anyx (fun p : option str * option str * option structure => fst (fst p) = snd (fst p)));
+    [now apply canbevaries_unnamed|].
+  intros [[nm dt] st] E. cbn [fst snd] in E. subst nm.
+  change (valid_child_name None (Some (unbs "VARIES"))) with false. cbn [andb].
+  assert (U : forall v en, sub_unknown (mk_sub dt dt v en) = true).
+  { intros v en. unfold sub_unknown. cbn. apply ValidateFacts.opt_eqb_refl. }
+  destruct value; [apply U|]. apply (sp_bind anyx TT); [destruct (leaf _ _); exact I|]. intros x _. apply U.
+Qed.
+
+Lemma mk_subcomponent_named n0 value reference : n0 <> [] -> ogref t reference ->
+  can_ref (t_components t) (Some n0) reference ->
+  valid_child_name (Some n0) (Some (unbs "VARIES")) = false ->
+  pc (fun x => sc_name x = Some (upper n0) /\ forall r, slookup (upper n0) (t_components t) = Some r -> sc_dt x = ref_dt r)
+     (mk_subcomponent t lvl leaf (Some n0) None value reference).
+Proof.
+  intros Hne Hr Hcan Hv. unfold mk_subcomponent.
+  assert (N : (match Some n0 with Some (_ :: _) => false | _ => true end) = false) by (destruct n0; [congruence|reflexivity]).
+  rewrite N. cbn [andb].
+  eapply (sp_bind anyx); [now apply (canbevaries_named lvl true n0 reference)|].
+  intros [[nm dt] st] [Hnm [r [s [E [G [Hp [Hs Hd]]]]]]]. cbn [fst snd] in Hnm, Hs, Hd. subst nm.
+  rewrite Hv. cbn [andb].
+  assert (Q : forall v en, sc_name (mk_sub (Some (upper n0)) dt v en) = Some (upper n0) /\
+                           forall r0, slookup (upper n0) (t_components t) = Some r0 -> sc_dt (mk_sub (Some (upper n0)) dt v en) = ref_dt r0).
+  { intros v en. split; [reflexivity|]. intros r0 E0. cbn. rewrite E in E0. injection E0 as <-. exact Hd. }
+  destruct value; [apply Q|]. apply (sp_bind anyx TT); [destruct (leaf _ _); exact I|]. intros x _. apply Q.
+Qed.
+
+Lemma name_idx_ne p i : name_idx p i <> [].
+Proof. destruct (name_idx_cons p i) as [c [r ->]]. discriminate. Qed.
+
+Lemma not_varies_child d i : bstarts (unbs "VARIES") d = false -> upper d = d ->
+  valid_child_name (Some (name_idx d i)) (Some (unbs "VARIES")) = false.
+Proof. intros H Hu. rewrite valid_child_name_idx, Hu. change (upper (unbs "VARIES")) with (unbs "VARIES"). now apply not_varies_name. Qed.
+
+(* parse_subcomponents below a component of the complex datatype d *)
+Lemma parse_subcomponents_aux_S d st l : ost_canC t st -> base (Some d) = false ->
+  bstarts (unbs "VARIES") d = false -> upper d = d ->
+  pc (Forall (psub st)) (parse_subcomponents_aux t lvl leaf (Some d) st l).
+Proof.
+  intros Hs Hb Hnvd Hu. induction l as [|[i s] rest IH]; [constructor|]. cbn [parse_subcomponents_aux].
+  rewrite Hb. cbn [opt_is_none orb str_of_opt]. cbn beta iota.
+  assert (K : forall nm dt ref, pc (psub st) (mk_subcomponent t lvl leaf nm dt s ref) ->
+    pc (Forall (psub st))
+       (if materialise s nm
+        then do x <- mk_subcomponent t lvl leaf nm dt s ref;
+             do xs <- parse_subcomponents_aux t lvl leaf (Some d) st rest; Ok (x :: xs)
+        else parse_subcomponents_aux t lvl leaf (Some d) st rest)).
+  { intros nm dt ref H. destruct (materialise s nm); [|exact IH].
+    apply (sp_bind anyx (psub st)); [exact H|]. intros x Hx.
+    apply (sp_bind anyx (Forall (psub st))); [exact IH|]. intros xs Hxs. now constructor. }
+  destruct (has_map st) eqn:M; cbn beta iota.
+  - destruct (ref_in st (name_idx d i)) as [r|] eqn:R; cbn beta iota.
+    + destruct (ref_in_canC t st _ r Hs R) as [E U]. apply K.
+      eapply sp_weaken; [|apply (mk_subcomponent_named (name_idx d i) s (Some r) (name_idx_ne d i) (Hgc _ _ E))].
+      * intros x [Hn Hd]. right. exists (name_idx d i). rewrite U in Hn, Hd. split; [exact Hn|]. split; [exact Hd|].
+        intros _. congruence.
+      * intros r' n H1 H2. injection H1 as <-. injection H2 as <-. now rewrite U.
+      * now apply not_varies_child.
+    + apply K. eapply sp_weaken; [|apply mk_subcomponent_unnamed; apply dt_simple_ST; exact Hst]. intros x Hx. now left.
+  - apply K.
+    eapply sp_weaken; [|apply (mk_subcomponent_named (name_idx d i) s None (name_idx_ne d i) I)].
+    + intros x [Hn Hd]. right. exists (upper (name_idx d i)). split; [exact Hn|]. split; [exact Hd|congruence].
+    + intros r' n H1. discriminate.
+    + now apply not_varies_child.
+Qed.
+
+(* STRICT admission below a complex parent: nothing unknown, nothing above its maximum *)
+Definition card_inv {A} (nm : A -> option str) (st : option structure) (l : list A) : Prop :=
+  forall s n mn mx, st = Some s -> repetitions_of s n = Some (mn, mx) -> (mx > -1)%Z ->
+                    (Z.of_nat (count_named nm (Some n) l) <= mx)%Z.
+
+Lemma count_named_snoc {A} (nm : A -> option str) n l k :
+  count_named nm n (l ++ [k]) = count_named nm n l + (if opt_eqb (nm k) n then 1 else 0).
+Proof. unfold count_named. rewrite filter_app, app_length. cbn [filter]. destruct (opt_eqb (nm k) n); reflexivity. Qed.
+
+Lemma card_step {A} (nm : A -> option str) st l k :
+  card_ok STRICT nm st (nm k) l = true -> card_inv nm st l -> card_inv nm st (l ++ [k]).
+Proof.
+  intros Hc Hi s n mn mx Hs Hr Hm. rewrite count_named_snoc.
+  destruct (opt_eqb (nm k) (Some n)) eqn:E; [|rewrite Nat.add_0_r; exact (Hi s n mn mx Hs Hr Hm)].
+  apply ValidateFacts.opt_eqb_true in E. unfold card_ok in Hc. cbn [is_strict negb] in Hc.
+  rewrite E, Hs, Hr in Hc. apply negb_true_iff in Hc. apply andb_false_iff in Hc. destruct Hc as [Hc|Hc].
+  - rewrite Z.gtb_ltb in Hc. apply Z.ltb_ge in Hc. lia.
+  - rewrite Z.gtb_ltb in Hc. apply Z.ltb_ge in Hc. lia.
+Qed.
+
+Lemma vcc_strict_known pn pdt pst kn kdt : cplx pdt ->
+  valid_child_complex t STRICT pn pdt pst kn kdt = Ok true -> opt_eqb kn kdt = false.
+Proof.
+  intros [d [-> [Hb Hv]]]. unfold valid_child_complex. rewrite Hb, Hv. cbn [negb andb orb opt_is_none is_strict].
+  destruct (opt_eqb kn kdt); [|reflexivity]. cbn [andb]. discriminate.
+Qed.
+
+Lemma add_subs_S kids : forall c c', add_subs t lvl c kids = Ok c' ->
+  card_inv sc_name (c_st c) (c_children c) ->
+  c' = mk_comp (c_name c) (c_dt c) (c_st c) (c_children c ++ kids) /\
+  card_inv sc_name (c_st c) (c_children c') /\
+  (cplx (c_dt c) -> Forall (fun k => sub_unknown k = false) kids).
+Proof.
+  induction kids as [|k rest IH]; intros c c' H Hi; cbn [add_subs] in H.
+  - injection H as <-. rewrite app_nil_r. split; [now destruct c|]. split; [exact Hi|constructor].
+  - destruct (_ && _ && _); [discriminate|]. destruct (_ && _ && _); [discriminate|].
+    destruct (valid_child_complex t lvl (c_name c) (c_dt c) (c_st c) (sc_name k) (sc_dt k)) as [[|]|] eqn:V;
+      cbn [bind negb] in H; try discriminate.
+    destruct (card_ok lvl sc_name (c_st c) (sc_name k) (c_children c)) eqn:C; cbn [negb] in H; [|discriminate].
+    apply IH in H; [|cbn; now apply card_step]. cbn [c_name c_dt c_st c_children] in H.
+    destruct H as [-> [H2 H3]]. rewrite <- app_assoc in H2 |- *. split; [reflexivity|]. split; [exact H2|].
+    intros Hx. constructor; [|now apply H3]. exact (vcc_strict_known _ _ _ _ _ Hx V).
+Qed.
+
+
+
+(* a component built under its table entry, with STRICT-admitted subcomponents *)
+Definition cbuilt (c : comp) : Prop :=
+  exists n, c_name c = Some n /\
+    forall r, slookup n (t_components t) = Some r ->
+      c_dt c = ref_dt r /\
+      forall i, r = SSeqDt i -> exists st, c_st c = Some st /\ parse_structure t r = Ok st /\
+                                kids_ok sc_name st (c_children c) /\ Forall csub (c_children c).
+
+Lemma ccomp_of c : comp_unknown c = false -> cbuilt c -> ccomp c.
+Proof. intros H1 H2. split; assumption. Qed.
+
+Lemma parse_component_S text n0 reference : n0 <> [] -> ogref t reference ->
+  can_ref (t_components t) (Some n0) reference ->
+  valid_child_name (Some n0) (Some (unbs "VARIES")) = false ->
+  pc (fun c => c_name c = Some (upper n0) /\ slookup (upper n0) (t_components t) <> None /\ cbuilt c)
+     (parse_component t lvl e leaf text (Some n0) None reference).
+Proof.
+  intros Hne Hr Hcan Hv. unfold parse_component.
+  apply (sp_bind anyx (fun c => c_children c = [] /\ c_name c = Some (upper n0) /\
+           exists r s, slookup (upper n0) (t_components t) = Some r /\ gref t r /\ parse_structure t r = Ok s /\
+                       c_st c = Some s /\ c_dt c = ref_dt r)).
+  - apply (pc_fallback _ (fun _ => mk_component t lvl (Some n0) None reference)); [|intros _; exact I].
+    unfold mk_component. eapply (sp_bind anyx); [now apply (canbevaries_named lvl false n0 reference)|].
+    intros [[nm dt] st] [Hnm [r [s [E [G [Hp [Hs Hd]]]]]]]. cbn [fst snd] in Hnm, Hs, Hd.
+    destruct (_ && _ && _ && _); [exact I|]. cbn. split; [reflexivity|]. split; [exact Hnm|]. exists r, s. auto.
+  - intros c [Hk [Hn [r [s [E [G [Hp [Hs Hd]]]]]]]]. unfold parse_subcomponents. cbn [is_strict negb andb].
+    assert (Fin : forall kids c', add_subs t lvl c kids = Ok c' ->
+              (forall i, r = SSeqDt i -> Forall (psub (Some s)) kids) ->
+              c_name c' = Some (upper n0) /\ slookup (upper n0) (t_components t) <> None /\ cbuilt c').
+    { intros kids c' Ha Hps.
+      assert (Hi0 : card_inv sc_name (c_st c) (c_children c)) by (rewrite Hk; intros s0 n mn mx _ _ Hm; cbn; lia).
+      destruct (add_subs_S kids c c' Ha Hi0) as [-> [Hci Hun]]. cbn [c_name c_children c_st c_dt] in *.
+      split; [exact Hn|]. split; [congruence|]. exists (upper n0). split; [exact Hn|].
+      intros r' E'. rewrite E in E'. injection E' as <-. split; [exact Hd|].
+      intros i ->. exists s. split; [exact Hs|]. split; [exact Hp|]. rewrite Hk in *. cbn [app] in *.
+      destruct (gref_cplx i G) as [Hx _]. rewrite Hd in Hun. specialize (Hun Hx). specialize (Hps i eq_refl).
+      assert (Hm : has_map (Some s) = true).
+      { destruct (struct_facts i G s Hp) as [d [rows [_ [_ [_ [_ [_ [_ [[Ho _ _] _]]]]]]]]]. unfold has_map. now rewrite Ho. }
+      assert (Each : forall k, In k kids -> sub_unknown k = false /\
+                exists n, sc_name k = Some n /\ (forall r0, slookup n (t_components t) = Some r0 -> sc_dt k = ref_dt r0) /\
+                          by_name s n <> None).
+      { intros k Hin. rewrite Forall_forall in Hun, Hps. pose proof (Hun k Hin) as U. split; [exact U|].
+        destruct (Hps k Hin) as [U'|[n [N1 [N2 N3]]]]; [congruence|]. exists n. split; [exact N1|]. split; [exact N2|].
+        specialize (N3 Hm). unfold ref_in in N3. destruct (st_ordered s); [|congruence].
+        destruct (by_name s n); [discriminate|]. cbn in N3. congruence. }
+      split; [split|].
+      - intros k Hin. destruct (Each k Hin) as [_ [n [N1 [_ N3]]]]. eauto.
+      - intros n mn mx Hrp Hmx. rewrite Hs in Hci. exact (Hci s n mn mx eq_refl Hrp Hmx).
+      - apply Forall_forall. intros k Hin. destruct (Each k Hin) as [U [n [N1 [N2 _]]]]. split; [exact U|]. eauto. }
+    destruct r as [i|i|c0 cs oi|]; cbn [gref] in G; try tauto.
+    + apply (sp_bind anyx TT); [destruct (parse_subcomponents_aux _ _ _ _ _ _); exact I|]. intros kids _.
+      eapply sp_post; [apply pc_eq|]. intros c' Ha _. apply (Fin kids c' Ha). intros i0 E0. discriminate.
+    + destruct (gref_cplx i G) as [[d [Hd' [Hb _]]] [d' [Hd'' [_ [Hu Hnvd]]]]].
+      rewrite Hd' in Hd''. injection Hd'' as <-.
+      assert (Ec : c_dt c = Some d) by (rewrite Hd; exact Hd').
+      assert (Hcan' : ost_canC t (c_st c)).
+      { rewrite Hs. destruct (gref_parse t (SSeqDt i) G) as [s' [Hp' [_ [_ [Hc' _]]]]]. rewrite Hp in Hp'. injection Hp' as <-. exact Hc'. }
+      rewrite Ec. rewrite Hd' in Hb.
+      apply (sp_bind anyx (Forall (psub (c_st c)))); [now apply parse_subcomponents_aux_S|]. intros kids Hkids.
+      eapply sp_post; [apply pc_eq|]. intros c' Ha _. apply (Fin kids c' Ha). intros i0 _. now rewrite <- Hs.
+Qed.
+
+Lemma add_comps_S kids : forall f f', add_comps t lvl f kids = Ok f' ->
+  card_inv c_name (f_st f) (f_children f) ->
+  f' = mk_field_rec (f_name f) (f_dt f) (f_st f) (f_children f ++ kids) /\
+  card_inv c_name (f_st f) (f_children f') /\
+  (cplx (f_dt f) -> Forall (fun k => comp_unknown k = false) kids).
+Proof.
+  induction kids as [|k rest IH]; intros f f' H Hi; cbn [add_comps] in H.
+  - injection H as <-. rewrite app_nil_r. split; [now destruct f|]. split; [exact Hi|constructor].
+  - destruct (_ && _ && _); [discriminate|].
+    destruct (valid_child_complex t lvl (f_name f) (f_dt f) (f_st f) (c_name k) (c_dt k)) as [[|]|] eqn:V;
+      cbn [bind negb] in H; try discriminate.
+    destruct (card_ok lvl c_name (f_st f) (c_name k) (f_children f)) eqn:C; cbn [negb] in H; [|discriminate].
+    apply IH in H; [|cbn; now apply card_step]. cbn [f_name f_dt f_st f_children] in H.
+    destruct H as [-> [H2 H3]]. rewrite <- app_assoc in H2 |- *. split; [reflexivity|]. split; [exact H2|].
+    intros Hx. constructor; [|now apply H3]. exact (vcc_strict_known _ _ _ _ _ Hx V).
+Qed.
+
+(* parse_components below a field of the complex datatype d whose structure is st *)
+Lemma parse_components_aux_S d rows st l : st_canC t st -> rows_structure t d CMP rows st -> rows_resolved t rows ->
+  (forall j, length rows < j -> slookup (name_idx d j) (t_components t) = None) -> base (Some d) = false -> bstarts (unbs "VARIES") d = false -> upper d = d ->
+  Forall (fun p : nat * str => 1 <= fst p) l ->
+  pc (Forall (fun c => cbuilt c /\ exists n, c_name c = Some n /\ by_name st n <> None))
+     (parse_components_aux t lvl e leaf (Some d) (Some st) l).
+Proof.
+  intros Hs Hrs Hres Hl Hb Hnvd Hu Hl1. induction l as [|[i s] rest IH]; [constructor|]. cbn [parse_components_aux].
+  inversion Hl1 as [|? ? Hi Hrest]; subst. cbn [fst] in Hi. specialize (IH Hrest).
+  rewrite Hb. rewrite (upper_not_lower_varies d Hu). cbn [opt_is_none orb str_of_opt]. cbn beta iota.
+  assert (Hm : has_map (Some st) = true) by (destruct Hrs as [Ho _ _]; unfold has_map; now rewrite Ho).
+  rewrite Hm.
+  match goal with |- sp _ _ (if ?b then _ else _) => destruct b; [|exact IH] end.
+  apply (sp_bind anyx (fun c => cbuilt c /\ exists n, c_name c = Some n /\ by_name st n <> None)).
+  - destruct (ref_in (Some st) (name_idx d i)) as [r|] eqn:R.
+    + destruct (ref_in_canC t (Some st) _ r Hs R) as [E U].
+      eapply sp_weaken; [|apply (parse_component_S s (name_idx d i) (Some r) (name_idx_ne d i) (Hgc _ _ E))].
+      * intros c [Hn [_ Hc]]. split; [exact Hc|]. exists (name_idx d i). rewrite U in Hn. split; [exact Hn|].
+        unfold ref_in in R. destruct (st_ordered st); [|discriminate]. destruct (by_name st (name_idx d i)); [discriminate|discriminate].
+      * intros r' n H1 H2. injection H1 as <-. injection H2 as <-. now rewrite U.
+      * now apply not_varies_child.
+    + assert (Hlen : length rows < i).
+      { destruct (Nat.lt_ge_cases (length rows) i) as [L|L]; [exact L|exfalso].
+        destruct i as [|j]; [lia|]. destruct (nth_error rows j) as [row|] eqn:Ej; [|apply nth_error_None in Ej; lia].
+        destruct Hrs as [Ho Hbn _]. unfold ref_in in R. rewrite Ho in R.
+        destruct (row_ref t row) as [r|] eqn:Er; [|exact (Hres row (nth_error_In _ _ Ej) Er)].
+        rewrite (Hbn j row r Ej Er) in R. discriminate R. }
+      eapply sp_weaken; [|apply (parse_component_S s (name_idx d i) None (name_idx_ne d i) I)].
+      * intros c [_ [Hne _]]. exfalso. apply Hne. rewrite name_idx_upper, Hu. exact (Hl i Hlen).
+      * intros r' n H1. discriminate.
+      * now apply not_varies_child.
+  - intros x Hx. apply (sp_bind anyx (Forall (fun c => cbuilt c /\ exists n, c_name c = Some n /\ by_name st n <> None))); [exact IH|].
+    intros xs Hxs. now constructor.
+Qed.
+
+
+(* ---------- fields ---------- *)
+Lemma mk_field_invalid_S n0 reference :
+  mk_field t lvl (Some n0) None reference = Err (HL7 EInvalidName) ->
+  structure_for t FIE (upper n0) reference = Err (HL7 EInvalidName).
+Proof.
+  unfold mk_field. cbn [is_strict andb]. change (is_varies None) with false. cbn [negb andb].
+  destruct (structure_for t FIE (upper n0) reference) as [st|[c| |k|]] eqn:S; cbn [bind]; try discriminate.
+  destruct c; cbn [bind]; try discriminate. intros _. reflexivity.
+Qed.
+
+Definition leaf_ST : sref := SLeaf (mk_info (Some (unbs "ST")) None None (-1)).
+
+Definition mfS (n0 : str) (reference : option sref) (f : field) : Prop :=
+  f_children f = [] /\ f_name f = Some (upper n0) /\
+  ((exists st, structure_for t FIE (upper n0) reference = Ok st /\ f_st f = Some st /\ f_dt f = ref_dt (st_reference st)) \/
+   (structure_for t FIE (upper n0) reference = Err (HL7 EInvalidName) /\ valid_z_field_name n0 = true /\
+    f_dt f = Some (unbs "ST") /\ has_map (f_st f) = false)).
+
+Lemma mk_field_S n0 reference : pc (mfS n0 reference) (mk_field t lvl (Some n0) None reference).
+Proof.
+  unfold mk_field. cbn [is_strict andb]. change (is_varies None) with false. cbn [negb andb].
+  destruct (structure_for t FIE (upper n0) reference) as [st|[c| |k|]] eqn:S; cbn [bind]; try exact I.
+  - cbn. split; [reflexivity|]. split; [reflexivity|]. left. exists st. split; [exact S|]. split; [reflexivity|].
+    apply ref_dt_parse. exact (structure_for_parsed t _ _ _ _ S).
+  - destruct c; cbn [bind]; try exact I. destruct (valid_z_field_name n0) eqn:Z; [|exact I].
+    rewrite Hst. change (parse_structure t (SLeaf (mk_info (Some (unbs "ST")) None None (-1))))
+      with (Ok (mk_structure leaf_ST None [] [] [] (Some (mk_info (Some (unbs "ST")) None None (-1))))).
+    cbn [bind]. cbn [st_dt st_info i_dt]. rewrite ValidateFacts.opt_eqb_refl. cbn [negb andb].
+    apply (sp_bind anyx (fun p => p = (Some (unbs "ST"), Some (mk_structure leaf_ST None [] [] [] (Some (mk_info (Some (unbs "ST")) None None (-1)))))));
+      [apply (set_datatype_ctor_simple t); apply dt_simple_ST; exact Hst|].
+    intros [dt st'] E. injection E as -> ->. cbn. split; [reflexivity|]. split; [reflexivity|]. right.
+    split; [exact S|]. auto.
+Qed.
+
+(* a field built on the reference r *)
+Definition fbuilt (r : sref) (f : field) : Prop :=
+  f_dt f = ref_dt r /\
+  forall i, r = SSeqDt i -> exists st, f_st f = Some st /\ parse_structure t r = Ok st /\
+                            kids_ok c_name st (f_children f) /\ Forall ccomp (f_children f).
+
+Definition sfp (n0 : str) (reference : option sref) (fv : bool) (f : field) : Prop :=
+  f_name f = Some (upper n0) /\ enc_ok t f /\
+  ((exists st, structure_for t FIE (upper n0) reference = Ok st /\ fbuilt (st_reference st) f) \/
+   (structure_for t FIE (upper n0) reference = Err (HL7 EInvalidName) /\
+    ((valid_z_field_name n0 = true /\ f_dt f = Some (unbs "ST")) \/ (fv = true /\ f_dt f = Some (unbs "varies"))))).
+
+Lemma indexed_ge1 (l : list str) : Forall (fun p : nat * str => 1 <= fst p) (indexed l).
+Proof.
+  apply Forall_forall. intros [k p] H. unfold indexed in H. apply in_combine_seq in H. cbn. lia.
+Qed.
+
+Lemma structure_for_gref k n reference st : (k = FIE \/ k = CMP) -> ogref t reference ->
+  structure_for t k n reference = Ok st -> gref t (st_reference st).
+Proof.
+  intros Hk Hr S. unfold structure_for in S. destruct reference as [r|].
+  - destruct (parse_structure_info t r st S) as [_ ->]. exact Hr.
+  - unfold load_reference in S. destruct (slookup n (table_of t k)) as [r|] eqn:E; [|discriminate].
+    destruct (parse_structure_info t r st S) as [_ ->]. destruct Hk as [-> | ->]; [exact (Hgf _ _ E)|exact (Hgc _ _ E)].
+Qed.
+
+Lemma parse_field_S text n0 reference fv : ogref t reference ->
+  (forall st, structure_for t FIE (upper n0) reference = Ok st -> nx_ref (st_reference st)) ->
+  pc (sfp n0 reference fv) (parse_field t lvl e leaf text (Some n0) reference fv).
+Proof.
+  intros Hr Hnr. unfold parse_field.
+  apply (sp_bind anyx (fun f => f_children f = [] /\ f_name f = Some (upper n0) /\
+     ((exists st, structure_for t FIE (upper n0) reference = Ok st /\ f_st f = Some st /\ f_dt f = ref_dt (st_reference st)) \/
+      (structure_for t FIE (upper n0) reference = Err (HL7 EInvalidName) /\ has_map (f_st f) = false /\
+       ((valid_z_field_name n0 = true /\ f_dt f = Some (unbs "ST")) \/ (fv = true /\ f_dt f = Some (unbs "varies"))))))).
+  - apply (pc_fallback _ (fun _ => mk_field t lvl (Some n0) None reference)).
+    + eapply sp_weaken; [|apply mk_field_S]. intros f [H1 [H2 [H3|[H3 [H4 [H5 H6]]]]]]; repeat (split; [assumption|]); [now left|].
+      right. auto.
+    + intros Hinv. apply mk_field_invalid_S in Hinv. destruct fv; [|exact I].
+      eapply sp_weaken; [|apply mk_field_S]. intros f [H1 [H2 [[st [S [Hs Hd]]]|[S _]]]]; [|discriminate S].
+      split; [exact H1|]. split; [exact H2|]. right. split; [exact Hinv|].
+      cbn [structure_for] in S. injection S as <-. split; [now rewrite Hs|]. right. split; [reflexivity|exact Hd].
+  - intros f [Hk [Hn Hx]].
+    assert (Hi0 : card_inv c_name (f_st f) (f_children f)) by (rewrite Hk; intros s0 n mn mx _ _ Hm; cbn; lia).
+    (* what admission gives, whatever the children were *)
+    assert (Fin : forall kids f', add_comps t lvl f kids = Ok f' ->
+              (forall st i, structure_for t FIE (upper n0) reference = Ok st -> st_reference st = SSeqDt i ->
+                 f_st f = Some st ->
+                 Forall (fun c => cbuilt c /\ exists n, c_name c = Some n /\ by_name st n <> None) kids) ->
+              enc_ok t f' -> sfp n0 reference fv f').
+    { intros kids f' Ha Hkids He. destruct (add_comps_S kids f f' Ha Hi0) as [-> [Hci Hun]].
+      cbn [f_name f_children f_st f_dt] in *. split; [exact Hn|]. split; [exact He|].
+      destruct Hx as [[st [S [Hs Hd]]]|[S [_ Hx]]]; [left|right; cbn [f_dt]; auto].
+      exists st. split; [exact S|]. split; [exact Hd|]. cbn [f_st f_children]. intros i Ei.
+      pose proof (structure_for_gref FIE _ _ _ (or_introl eq_refl) Hr S) as G. rewrite Ei in G.
+      exists st. split; [exact Hs|]. split; [exact (structure_for_parsed t _ _ _ _ S)|].
+      rewrite Hk in *. cbn [app] in *.
+      destruct (gref_cplx i G) as [Hcx _]. rewrite Hd, Ei in Hun. cbn [ref_dt ref_info] in Hun. specialize (Hun Hcx).
+      specialize (Hkids st i S Ei Hs). rewrite Forall_forall in Hun, Hkids. split; [split|].
+      - intros k Hin. destruct (Hkids k Hin) as [_ Hd']. exact Hd'.
+      - intros n mn mx Hrp Hm. rewrite Hs in Hci. exact (Hci st n mn mx eq_refl Hrp Hm).
+      - apply Forall_forall. intros k Hin. apply ccomp_of; [exact (Hun k Hin)|exact (proj1 (Hkids k Hin))]. }
+    destruct (is_msh12 (Some n0)) eqn:M.
+    + apply (sp_bind anyx (fun x => sub_unknown x = true));
+        [apply mk_subcomponent_unnamed; apply dt_simple_ST; exact Hst|]. intros s Hsub.
+      apply (sp_bind anyx (fun c => c_name c = c_dt c /\ c_children c = [])).
+      { unfold mk_component. eapply (sp_bind anyx); [apply (canbevaries_unnamed lvl false (unbs "ST") None); apply dt_simple_ST; exact Hst|].
+        intros [[nm dt] st] E. cbn [fst snd] in E. destruct (_ && _ && _ && _); [exact I|]. cbn. auto. }
+      intros c0 [Hc0 Hk0].
+      apply (sp_bind_eq anyx TT); [destruct (add_subs _ _ _ _); exact I|]. intros c Ec _.
+      eapply sp_post; [apply pc_eq|]. intros f' Ef _.
+      assert (Hi1 : card_inv sc_name (c_st c0) (c_children c0)) by (rewrite Hk0; intros s0 n mn mx _ _ Hm; cbn; lia).
+      destruct (add_subs_S [s] c0 c Ec Hi1) as [Ec' _].
+      apply (Fin [c] f' Ef).
+      * intros st i S Ei Hs. exfalso.
+        destruct (add_comps_S [c] f f' Ef Hi0) as [_ [_ Hun]].
+        pose proof (structure_for_gref FIE _ _ _ (or_introl eq_refl) Hr S) as G. rewrite Ei in G.
+        destruct (gref_cplx i G) as [Hcx _].
+        destruct Hx as [[st' [S' [Hs' Hd]]]|[S' _]]; [|rewrite S in S'; discriminate].
+        rewrite S in S'. injection S' as <-. rewrite Hd, Ei in Hun. cbn [ref_dt ref_info] in Hun.
+        specialize (Hun Hcx). inversion Hun as [|? ? U _]; subst. unfold comp_unknown in U. cbn in U.
+        rewrite Hc0, ValidateFacts.opt_eqb_refl in U. discriminate.
+      * destruct (add_comps_S [c] f f' Ef Hi0) as [-> _]. intros e'. unfold enc_field. cbn [f_name f_children f_dt].
+        rewrite Hk. cbn [app]. rewrite Ec', Hk0. cbn [c_children app].
+        destruct (opt_eqb _ _ || _); [eauto|]. destruct (is_varies (f_dt f)); [eauto|].
+        destruct (base (f_dt f) || opt_is_none (f_dt f)); eauto.
+    + cbn [is_strict negb andb].
+      assert (He : forall kids f', add_comps t lvl f kids = Ok f' -> enc_ok t f').
+      { intros kids f' Ha. apply enc_ok_not_msh. apply add_comps_appends in Ha. destruct Ha as [_ [E2 _]].
+        rewrite E2, Hn. exact M. }
+      destruct Hx as [[st [S [Hs Hd]]]|Hx'].
+      * pose proof (structure_for_gref FIE _ _ _ (or_introl eq_refl) Hr S) as G.
+        pose proof (structure_for_parsed t _ _ _ _ S) as P.
+        destruct (st_reference st) as [i|i|c0 cs oi|] eqn:Er; cbn [gref] in G; try tauto.
+        -- apply (sp_bind anyx TT); [destruct (parse_components _ _ _ _ _ _ _); exact I|]. intros kids _.
+           eapply sp_post; [apply pc_eq|]. intros f' Ha _. apply (Fin kids f' Ha); [|exact (He kids f' Ha)].
+           intros st' i' S' Ei. rewrite S in S'. injection S' as <-. rewrite Er in Ei. discriminate.
+        -- destruct (struct_facts i G st P) as [d [rows [Hdd [Hu [Hl [_ [Hc [Hrows [Hrs _]]]]]]]]].
+           destruct (gref_cplx i G) as [[d0 [Hd0 [Hb _]]] [d1 [Hd1 [_ [_ Hnvd]]]]].
+           rewrite Hdd in Hd0, Hd1. injection Hd0 as <-. injection Hd1 as <-. rewrite Hdd in Hb.
+           assert (Hcan : st_canC t st).
+           { destruct (gref_parse t (SSeqDt i) G) as [s' [Hp' [_ [_ [Hc' _]]]]]. rewrite P in Hp'. injection Hp' as <-. exact Hc'. }
+           unfold parse_components. rewrite Hd, Hs. cbn [ref_dt ref_info]. rewrite Hdd.
+           apply (sp_bind anyx (Forall (fun c => cbuilt c /\ exists n, c_name c = Some n /\ by_name st n <> None))).
+           { apply (parse_components_aux_S d rows st _ Hcan Hrs (crows_resolved t rows Hrows)); try assumption; [|apply indexed_ge1].
+             exact (Hnr st S i d rows Er Hdd Hl). }
+           intros kids Hkids. eapply sp_post; [apply pc_eq|]. intros f' Ha _.
+           apply (Fin kids f' Ha); [|exact (He kids f' Ha)].
+           intros st' i' S' Ei Hs'. rewrite S in S'. injection S' as <-. exact Hkids.
+      * apply (sp_bind anyx TT); [destruct (parse_components _ _ _ _ _ _ _); exact I|]. intros kids _.
+        eapply sp_post; [apply pc_eq|]. intros f' Ha _. apply (Fin kids f' Ha); [|exact (He kids f' Ha)].
+        intros st i S. destruct Hx' as [S' _]. rewrite S in S'. discriminate.
+Qed.
+
+
+(* ---------- parse_fields / Segment.add ---------- *)
+Definition refof (sst : structure) (n0 : str) : option sref :=
+  if has_map (Some sst) then ref_in (Some sst) n0 else None.
+Definition sfield (sst : structure) (prefix : str) (f : field) : Prop :=
+  exists i fv, sfp (name_idx prefix i) (refof sst (name_idx prefix i)) fv f.
+
+Lemma parse_reps_S reps n0 reference fv : ogref t reference ->
+  (forall st, structure_for t FIE (upper n0) reference = Ok st -> nx_ref (st_reference st)) ->
+  pc (Forall (sfp n0 reference fv)) (parse_reps t lvl e leaf reps (Some n0) reference fv).
+Proof.
+  intros Hr Hnr. induction reps as [|r rest IH]; [constructor|]. cbn [parse_reps].
+  apply (sp_bind anyx (sfp n0 reference fv)); [now apply parse_field_S|]. intros x Hx.
+  apply (sp_bind anyx (Forall (sfp n0 reference fv))); [exact IH|]. intros xs Hxs. now constructor.
+Qed.
+
+Definition st_nx (sst : structure) : Prop := forall k en, by_name sst k = Some en -> nx_ref (se_ref en).
+
+Lemma parse_fields_aux_S prefix sst fv l : st_canF t sst -> st_nx sst ->
+  pc (Forall (sfield sst prefix)) (parse_fields_aux t lvl e leaf prefix (Some sst) fv l).
+Proof.
+  intros Hs Hnxs. induction l as [|[i f] rest IH]; [constructor|]. cbn [parse_fields_aux].
+  fold (refof sst (name_idx prefix i)).
+  assert (R : ogref t (refof sst (name_idx prefix i))).
+  { unfold refof. destruct (has_map (Some sst)); [|exact I].
+    destruct (ref_in (Some sst) (name_idx prefix i)) as [r|] eqn:E; [|exact I].
+    destruct (ref_in_by_name _ _ _ E) as [en [B <-]]. exact (proj1 (proj2 (Hs _ _ B))). }
+  assert (W : forall reps fv', pc (Forall (sfield sst prefix))
+                (parse_reps t lvl e leaf reps (Some (name_idx prefix i)) (refof sst (name_idx prefix i)) fv')).
+  assert (N : forall st, structure_for t FIE (upper (name_idx prefix i)) (refof sst (name_idx prefix i)) = Ok st ->
+                nx_ref (st_reference st)).
+  { intros st S. unfold structure_for in S. destruct (refof sst (name_idx prefix i)) as [r|] eqn:Eref.
+    - rewrite (proj2 (parse_structure_info t _ _ S)). unfold refof in Eref. destruct (has_map (Some sst)); [|discriminate].
+      destruct (ref_in_by_name _ _ _ Eref) as [en [B <-]]. exact (Hnxs _ _ B).
+    - unfold load_reference in S. cbn [table_of] in S. destruct (slookup _ (t_fields t)) as [r|] eqn:E0; [|discriminate].
+      rewrite (proj2 (parse_structure_info t _ _ S)). exact (HnxF _ _ E0). }
+  { intros reps fv'. eapply sp_weaken; [|apply (parse_reps_S reps _ _ fv' R N)].
+    intros fs. apply Forall_impl. intros x Hx. now exists i, fv'. }
+  apply (sp_bind anyx (Forall (sfield sst prefix))).
+  - destruct (negb (is_blank f)).
+    + destruct (streqb _ _); apply W.
+    + destruct (streqb _ _); [apply W|constructor].
+  - intros here Hh. apply (sp_bind anyx (Forall (sfield sst prefix))); [exact IH|]. intros xs Hxs.
+    cbn. apply Forall_app. now split.
+Qed.
+
+Lemma add_fields_S kids : forall s s', add_fields t lvl s kids = Ok s' ->
+  card_inv f_name (Some (s_st s)) (s_children s) -> card_inv f_name (Some (s_st s)) (s_children s').
+Proof.
+  induction kids as [|k rest IH]; intros s s' H Hi; cbn [add_fields] in H.
+  - now injection H as <-.
+  - destruct (f_name k) as [kn|] eqn:N; [|discriminate].
+    destruct (_ && _); [destruct (known_field t kn); discriminate|].
+    destruct (negb (bstarts _ _)); [discriminate|].
+    destruct (card_ok lvl f_name (Some (s_st s)) (Some kn) (s_children s)) eqn:C; cbn [negb] in H; [|discriminate].
+    assert (Hi' : card_inv f_name (Some (s_st s)) (s_children s ++ [k])).
+    { apply card_step; [now rewrite N|exact Hi]. }
+    destruct (s_inf s && _).
+    + destruct (py_int_ok _); [|discriminate]. apply IH in H; exact H || exact Hi'.
+    + apply IH in H; exact H || exact Hi'.
+Qed.
+
+End ParseS.
+
+(* ---------- the theorem ---------- *)
+Hypothesis Hnz : forall r, slookup ("Z"%byte :: r) (t_fields t) = None.
+Hypothesis Hfu : forall n r, slookup n (t_fields t) = Some r -> ref_dt r <> Some n.
+Hypothesis Hsin : forall n rows, slookup n (t_segments t) = Some (SSeqIn false rows None) ->
+  forall row k m r mn mx, In row rows -> row = SIn k m r mn mx -> mx = 0%Z.
+
+(* the two side conditions (exact: see the refutations in Properties/C05.v) *)
+Definition strict_side (s : seg) : Prop :=
+  if seg_is_z s then Forall (fun f => field_is_z f = true) (s_children s)
+  else Forall (fun f => exists n, f_name f = Some n /\ by_name (s_st s) n <> None) (s_children s).
+
+Lemma mk_segment_parsed name s0 : mk_segment t name None = Ok s0 ->
+  parse_structure t (st_reference (s_st s0)) = Ok (s_st s0).
+Proof.
+  unfold mk_segment. destruct (valid_z_segment_name name).
+  - destruct (parse_structure t empty_seq) as [st|] eqn:E; cbn [bind]; [|discriminate].
+    intros H. injection H as <-. cbn [s_st]. now rewrite (proj2 (parse_structure_info t _ _ E)).
+  - destruct (structure_for t SEG (upper name) None) as [st|] eqn:E; cbn [bind]; [|discriminate].
+    pose proof (structure_for_parsed t _ _ _ _ E) as P. intros H.
+    assert (Hst' : s_st s0 = st).
+    { repeat match type of H with
+             | (if ?b then _ else _) = _ => destruct b
+             | match ?x with _ => _ end = _ => destruct x; try discriminate
+             end; try discriminate; injection H as <-; reflexivity. }
+    now rewrite Hst'.
+Qed.
+
+(* decidable form *)
+Definition strict_sideb (s : seg) : bool :=
+  if seg_is_z s then forallb field_is_z (s_children s)
+  else forallb (fun f => match f_name f with Some n => opt_is_some (by_name (s_st s) n) | None => false end) (s_children s).
+Lemma strict_sideb_spec s : strict_sideb s = true -> strict_side s.
+Proof.
+  unfold strict_sideb, strict_side. destruct (seg_is_z s); intros H; apply Forall_forall; intros f Hf;
+    pose proof (proj1 (forallb_forall _ _) H f Hf) as K; cbv beta in K; [exact K|].
+  destruct (f_name f) as [n|]; [|discriminate]. exists n. split; [reflexivity|]. now destruct (by_name (s_st s) n).
+Qed.
+
+Definition sseg_post (s : seg) : Prop :=
+  (exists prefix, s_name s = upper prefix /\ Forall (sfield (s_st s) prefix) (s_children s)) /\
+  parse_structure t (st_reference (s_st s)) = Ok (s_st s) /\
+  card_inv f_name (Some (s_st s)) (s_children s) /\
+  st_canF t (s_st s) /\ length (s_name s) = 3 /\ upper (s_name s) = s_name s /\
+  ((seg_is_z s = true /\ s_st s = empty_st) \/
+   (seg_is_z s = false /\ exists rows,
+      slookup (s_name s) (t_segments t) = Some (SSeqIn false rows None) /\
+      st_reference (s_st s) = SSeqIn false rows None /\
+      rows_structure t (s_name s) FIE rows (s_st s) /\ (forall row, In row rows -> frow t row) /\
+      rows_contiguous (s_name s) FIE 1 rows = true)).
+
+Theorem parse_segment_S e leaf text : pc sseg_post (parse_segment t STRICT e leaf text None).
+Proof.
+  unfold parse_segment.
+  apply (sp_bind_eq anyx (seg_pre t (seg_name_of text))).
+  - apply (mk_segment_good t Hgf Hgs). unfold seg_name_of, take. apply firstn_le_length.
+  - intros s0 Em [Hk [Hn [Hs [H3 Hcase]]]]. unfold parse_segment_in, parse_fields.
+    assert (Hnxs : st_nx (s_st s0)).
+    { destruct Hcase as [[Z E0]|[Z [rows [Er [Hrs [Hrows Hc]]]]]]; [rewrite E0; intros k en B; discriminate|].
+      assert (Hl : slookup (s_name s0) (t_segments t) = Some (SSeqIn false rows None)).
+      { destruct (Proofs.RoundTripMsg.mk_segment_st t _ None s0 Em) as [_ [[Z' _]|[_ Hl]]].
+        - rewrite Hn, valid_z_upper' in Z'. congruence.
+        - now rewrite Er in Hl. }
+      pose proof (mk_segment_parsed _ _ Em) as Hp. rewrite Er in Hp.
+      destruct (rows_parse' t (SSeqIn false rows None) false rows None (upper (seg_name_of text)) FIE eq_refl Hc
+                  (frows_resolved t rows Hrows)) as [st' [Hp' [_ [_ Hkey]]]].
+      rewrite Hp in Hp'. injection Hp' as <-.
+      intros k en B. destruct (Hkey k en B) as [j [row [Hj [_ Hrr]]]].
+      destruct (Hrows row (nth_error_In _ _ Hj)) as [[m [mn [mx [r' [-> E']]]]]|[m [r' [mn [mx [-> _]]]]]];
+        cbn [row_ref table_of] in Hrr.
+      - exact (HnxF _ _ Hrr).
+      - injection Hrr as <-. exact (HnxI _ _ Hl _ _ _ _ _ _ (nth_error_In _ _ Hj) eq_refl). }
+    apply (sp_bind anyx (Forall (sfield (s_st s0) (seg_name_of text)))); [exact (parse_fields_aux_S e leaf _ _ _ _ Hs Hnxs)|].
+    intros kids Hkids. eapply sp_post; [apply pc_eq|]. intros s Es _.
+    pose proof (add_fields_st t _ _ _ _ Es) as Est.
+    assert (Hi0 : card_inv f_name (Some (s_st s0)) (s_children s0)) by (rewrite Hk; intros s1 n mn mx _ _ Hm; cbn; lia).
+    pose proof (add_fields_S kids s0 s Es Hi0) as Hci.
+    apply add_fields_appends in Es. destruct Es as [Ec En].
+    unfold sseg_post, seg_is_z. rewrite Est, En, Hn, Ec, Hk. cbn [app].
+    split; [exists (seg_name_of text); split; [reflexivity|exact Hkids]|].
+    split; [exact (mk_segment_parsed _ _ Em)|]. split; [rewrite Ec, Hk in Hci; exact Hci|].
+    split; [exact Hs|]. split; [now rewrite upper_length|]. split; [apply upper_idem|].
+    rewrite valid_z_upper'. destruct Hcase as [[Z E0]|[Z [rows [Er [Hrs [Hrows Hc]]]]]]; [left; auto|right].
+    split; [exact Z|]. exists rows. split; [|auto].
+    destruct (Proofs.RoundTripMsg.mk_segment_st t _ None s0 Em) as [_ [[Z' _]|[_ Hl]]].
+    + rewrite Hn, valid_z_upper' in Z'. congruence.
+    + rewrite Hn, Er in Hl. exact Hl.
+Qed.
+
+Lemma bupper_not_z b : bupper b <> "z"%byte.
+Proof. destruct b; vm_compute; discriminate. Qed.
+
+Lemma zfield_upper_Z n0 : valid_z_field_name (upper n0) = true -> exists r, upper n0 = "Z"%byte :: r.
+Proof.
+  destruct n0 as [|c n0]; [discriminate|]. cbn [upper map]. fold (upper n0).
+  unfold valid_z_field_name. destruct (upper n0) as [|a [|b [|u [|d r]]]]; try discriminate.
+  intros H. repeat (apply andb_prop in H; destruct H as [H _]). apply orb_prop in H. destruct H as [H|H].
+  - destruct (beqb_spec (bupper c) "z"%byte) as [E|]; [|discriminate]. exfalso. exact (bupper_not_z c E).
+  - destruct (beqb_spec (bupper c) "Z"%byte) as [E|]; [|discriminate]. rewrite E. eauto.
+Qed.
+
+Lemma upper_not_varies n : upper n = n -> n <> unbs "varies".
+Proof. intros H ->. discriminate. Qed.
+
+Section Final.
+Variable e : ec.
+
+Lemma count_named_in {A} (nm : A -> option str) n kids k : In k kids -> nm k = Some n -> 1 <= count_named nm (Some n) kids.
+Proof.
+  intros Hin Hn. unfold count_named. induction kids as [|x kids IH]; [destruct Hin|]. cbn [filter].
+  destruct Hin as [->|Hin].
+  - rewrite Hn, ValidateFacts.opt_eqb_refl. cbn. lia.
+  - destruct (opt_eqb (nm x) (Some n)); cbn [length]; [specialize (IH Hin); lia|now apply IH].
+Qed.
+
+Theorem v_seg_oklog s l : sseg_post s -> strict_side s ->
+  v_seg t e (Some (st_reference (s_st s))) s = Ok l -> oklog l.
+Proof.
+  intros [[prefix [Hpre Hk]] [Hp [Hci [Hs [H3 [Hu Hcase]]]]]] Hside H. unfold v_seg in H. unfold strict_side in Hside.
+  rewrite Forall_forall in Hk.
+  destruct Hcase as [[Z Est]|[Z [rows [Hl [Er [Hrs [Hrows Hc]]]]]]]; rewrite Z in H, Hside.
+  - (* Z-segment: every field is a Z-field of datatype ST (or a varies field) *)
+    apply (seq_res_oklog _ _ H). intros r a Hr Ea. apply in_map_iff in Hr. destruct Hr as [f [<- Hf]].
+    rewrite Forall_forall in Hside. pose proof (Hside f Hf) as Zf.
+    destruct (Hk f Hf) as [i [fv [Hn [_ Hx]]]].
+    unfold field_is_z in Zf. rewrite Hn in Zf. destruct (zfield_upper_Z _ Zf) as [r0 Ur].
+    assert (Hdt : f_dt f = Some (unbs "ST") \/ f_dt f = Some (unbs "varies")).
+    { destruct Hx as [[st [S _]]|[_ [[_ Hd]|[_ Hd]]]]; [exfalso|now left|now right].
+      unfold refof in S. rewrite Est in S. cbn in S. unfold load_reference in S. cbn [table_of] in S.
+      rewrite Ur, Hnz in S. discriminate. }
+    unfold v_field, field_unknown, field_is_z in Ea. rewrite Hn, Zf in Ea.
+    assert (U : opt_eqb (Some (upper (name_idx prefix i))) (f_dt f) = false).
+    { destruct Hdt as [-> | ->]; cbn [opt_eqb]; apply ValidateFacts.opt_eqb_false || idtac.
+      - destruct (streqb_spec (upper (name_idx prefix i)) (unbs "ST")) as [E|]; [|reflexivity].
+        rewrite name_idx_upper in E. exfalso. exact (name_idx_not_ST _ _ E).
+      - destruct (streqb_spec (upper (name_idx prefix i)) (unbs "varies")) as [E|]; [|reflexivity].
+        exfalso. exact (upper_not_varies _ (upper_idem _) E). }
+    rewrite U in Ea. unfold check_z_field in Ea.
+    assert (B : base (f_dt f) || is_varies (f_dt f) = true).
+    { destruct Hdt as [-> | ->]; [now rewrite Hst|apply orb_true_r]. }
+    rewrite B in Ea. injection Ea as <-. constructor.
+  - (* a table segment *)
+    cbn [ref_or_load] in H. rewrite Er in H. cbn [view_of] in H. unfold seg_seq in H.
+    rewrite Forall_forall in Hside.
+    assert (Hrow : forall vc, In (Some vc) (map (row_view t) rows) ->
+              exists j row, nth_error rows j = Some row /\ row_view t row = Some vc /\
+                vc_name vc = name_idx (s_name s) (S j) /\ upper (vc_name vc) = vc_name vc /\
+                by_name (s_st s) (vc_name vc) = Some (mk_sentry (vc_name vc) (vc_ref vc) FIE) /\
+                repetitions_of (s_st s) (vc_name vc) = Some (vc_mn vc, vc_mx vc) /\
+                (vc_mx vc = -1 \/ 0 <= vc_mx vc)%Z).
+    { intros vc Hvc. apply in_map_iff in Hvc. destruct Hvc as [row [Hv Hin]].
+      apply In_nth_error in Hin. destruct Hin as [j Hj].
+      destruct (row_view_ref t row vc Hv) as [Hrr Hrn].
+      destruct (contiguous_nth (s_name s) FIE rows 1 j row Hc Hj) as [k' [mn [mx [Hrn' _]]]].
+      rewrite Hrn in Hrn'. injection Hrn' as _ Hm _ _. change (1 + j) with (S j) in Hm.
+      destruct Hrs as [Ho Hb _]. pose proof (Hb j row (vc_ref vc) Hj Hrr) as B. rewrite <- Hm in B.
+      rewrite Er in Hp.
+      destruct (rows_reps (SSeqIn false rows None) false rows None (s_name s) FIE (s_st s) eq_refl Hc
+                  (frows_resolved t rows Hrows) Hp j row _ _ _ _ Hj Hrn) as [R [R0 R1]]. rewrite <- Hm in R.
+      exists j, row. split; [exact Hj|]. split; [exact Hv|]. split; [exact Hm|].
+      split; [now rewrite Hm, name_idx_upper, Hu|]. split; [exact B|]. split; [exact R|]. lia. }
+    destruct (rows_parse' t (SSeqIn false rows None) false rows None (s_name s) FIE eq_refl Hc (frows_resolved t rows Hrows))
+      as [st' [Hp' [_ [_ Hkey]]]].
+    rewrite Er in Hp. rewrite Hp in Hp'. injection Hp' as <-.
+    assert (Hord : st_ordered (s_st s) <> None) by (destruct Hrs as [Ho _ _]; rewrite Ho; discriminate).
+    (* a declared child is called N_(j+1) for a row j; it is not a Z-field *)
+    assert (Hdecl : forall k, In k (s_children s) -> exists j row, nth_error rows j = Some row /\
+                      f_name k = Some (name_idx (s_name s) (S j)) /\ field_is_z k = false).
+    { intros k Hin. destruct (Hside k Hin) as [n [Hn Hb]]. destruct (by_name (s_st s) n) as [en|] eqn:B; [|congruence].
+      destruct (Hkey n en B) as [j [row [Hj [-> _]]]]. exists j, row. split; [exact Hj|]. split; [exact Hn|].
+      unfold field_is_z. rewrite Hn. exact (not_z_field_name (s_name s) (S j) H3 Hu Z). }
+    apply (check_seq_oklog _ _ _ _ _ _ _ _ H).
+    + intros k Hin _. destruct (Hdecl k Hin) as [j [row [Hj [Hn _]]]]. rewrite Hn. cbn [omem].
+      apply ValidateFacts.smem_In. unfold row_names. apply in_flat_map.
+      destruct (row_view t row) as [vc|] eqn:Hv; [|exfalso; exact (frow_views_some t rows Hrows None (eq_ind _ (fun o => In o _) (in_map (row_view t) rows row (nth_error_In _ _ Hj)) _ Hv) eq_refl)].
+      exists (Some vc). split; [rewrite <- Hv; apply in_map; exact (nth_error_In _ _ Hj)|].
+      destruct (row_view_ref t row vc Hv) as [_ Hrn].
+      destruct (contiguous_nth (s_name s) FIE rows 1 j row Hc Hj) as [k' [mn [mx [Hrn' _]]]].
+      rewrite Hrn in Hrn'. injection Hrn' as _ Hm _ _. left. exact Hm.
+    + intros vc n Hvc R. destruct (Hrow vc Hvc) as [j [row [Hj [Hv [Hm [Un [B [Rp Hmx]]]]]]]].
+      assert (n = vc_name vc) by (apply (resolve_seg_canon s (vc_name vc) n _ Un Hord B eq_refl R)). subst n.
+      destruct Hmx as [Hmx|Hmx]; [now left|right]. rewrite named_count. apply (Hci (s_st s) _ _ _ eq_refl Rp). lia.
+    + intros vc n k a Hvc R Hin Hnamed Ha. destruct (Hrow vc Hvc) as [j [row [Hj [Hv [Hm [Un [B [Rp Hmx]]]]]]]].
+      assert (n = vc_name vc) by (apply (resolve_seg_canon s (vc_name vc) n _ Un Hord B eq_refl R)). subst n.
+      unfold is_named in Hnamed. apply ValidateFacts.opt_eqb_true in Hnamed.
+      destruct (Hdecl k Hin) as [_ [_ [_ [_ Zk]]]].
+      destruct (Hs _ _ B) as [_ [Gr _]]. cbn [se_ref] in Gr.
+      destruct (row_view_ref t row vc Hv) as [Hrr Hrn].
+      (* the row is written by name: an inline row has maximum 0 and cannot have a child *)
+      assert (Hby : slookup (vc_name vc) (t_fields t) = Some (vc_ref vc)).
+      { destruct (Hrows row (nth_error_In _ _ Hj)) as [[m [mn [mx [r' [-> E']]]]]|[m [r' [mn [mx [-> _]]]]]].
+        * cbn [row_name] in Hrn. injection Hrn as _ <- _ _. cbn [row_ref table_of] in Hrr. exact Hrr.
+        * exfalso. pose proof (Hsin _ _ Hl _ _ _ _ _ _ (nth_error_In _ _ Hj) eq_refl) as M0.
+          cbn [row_name] in Hrn. injection Hrn as _ _ _ Hmx'. rewrite M0 in Hmx'.
+          pose proof (Hci (s_st s) _ _ _ eq_refl Rp) as C0. rewrite <- Hmx' in C0.
+          pose proof (count_named_in f_name _ _ k Hin Hnamed). lia. }
+      destruct (Hk k Hin) as [i [fv [Hn0 [Henc Hx]]]]. rewrite Hnamed in Hn0. injection Hn0 as Hn0.
+      assert (Hfb : fbuilt (vc_ref vc) k).
+      { unfold refof, has_map in Hx. destruct (st_ordered (s_st s)) as [o|] eqn:Eo; [|congruence]. cbn [opt_is_some opt_is_none negb] in Hx.
+        destruct (ref_in (Some (s_st s)) (name_idx prefix i)) as [r'|] eqn:Eri.
+        * destruct (ref_in_by_name _ _ _ Eri) as [en' [B' Ee]]. destruct (Hs _ _ B') as [U' _].
+          rewrite U' in Hn0. rewrite <- Hn0 in B'. rewrite B in B'. injection B' as <-. cbn [se_ref] in Ee. subst r'.
+          destruct Hx as [[st [S Hfb]]|[S _]].
+          -- cbn [structure_for] in S. now rewrite (proj2 (parse_structure_info t _ _ S)) in Hfb.
+          -- cbn [structure_for] in S. exfalso. exact (Proofs.StrictSim.parse_structure_not_hl7 t _ _ S).
+        * rewrite <- Hn0 in Hx. destruct Hx as [[st [S Hfb]]|[S _]]; unfold structure_for, load_reference in S; cbn [table_of] in S; rewrite Hby in S.
+          -- now rewrite (proj2 (parse_structure_info t _ _ S)) in Hfb.
+          -- exfalso. exact (Proofs.StrictSim.parse_structure_not_hl7 t _ _ S). }
+      apply (v_field_oklog e (Some (s_name s)) (vc_ref vc) k a Gr); [|exact Zk|congruence|exact Ha].
+      destruct Hfb as [Hd Hseq]. split; [|split; [exact Hd|split; [exact Henc|exact Hseq]]].
+      unfold field_unknown. rewrite Hnamed, Hd. apply ValidateFacts.opt_eqb_false. intros E. exact (Hfu _ _ Hby (eq_sym E)).
+    + intros k a Hin Zk _. exfalso. destruct (Hdecl k Hin) as [_ [_ [_ [_ Zk']]]]. congruence.
+Qed.
+
+(* ---------- the side conditions are necessary ---------- *)
+Lemma zseg_head N : length N = 3 -> upper N = N -> valid_z_segment_name N = true -> exists r, N = "Z"%byte :: r.
+Proof.
+  intros _ Hu Hz. unfold valid_z_segment_name in Hz. rewrite Hu in Hz. destruct N as [|c r]; [discriminate|].
+  apply andb_prop in Hz. destruct Hz as [Hz _]. destruct (beqb_spec c "Z"%byte) as [->|]; [eauto|discriminate].
+Qed.
+
+Theorem v_seg_side_necessary s l : sseg_post s -> v_seg t e (Some (st_reference (s_st s))) s = Ok l ->
+  forall f, In f (s_children s) ->
+    (if seg_is_z s then field_is_z f = false
+     else forall n, f_name f = Some n -> by_name (s_st s) n = None) ->
+  exists x, In x (errors_of l) /\ ~ is_missing_required x.
+Proof.
+  intros [[prefix [Hpre Hk]] [Hp [Hci [Hs [H3 [Hu Hcase]]]]]] H f Hf Hbad. unfold v_seg in H.
+  rewrite Forall_forall in Hk. destruct (Hk f Hf) as [i [fv [Hn [_ Hx]]]].
+  assert (Hn' : f_name f = Some (name_idx (s_name s) i)) by (now rewrite Hn, name_idx_upper, <- Hpre).
+  destruct Hcase as [[Z Est]|[Z [rows [Hl [Er [Hrs [Hrows Hc]]]]]]]; rewrite Z in H, Hbad.
+  - (* Z-segment, a field that is not a Z-field: the validator looks its name up in the field table *)
+    destruct (zseg_head _ H3 Hu Z) as [r0 Er0].
+    assert (Hnone : slookup (name_idx (s_name s) i) (t_fields t) = None).
+    { unfold name_idx. rewrite Er0. cbn [app]. apply Hnz. }
+    assert (Ha : v_field t e (Some (s_name s)) None f = Ok [VE (InvalidElement (f_name f))]).
+    { unfold v_field. rewrite Hbad.
+      assert (U : field_unknown f = false).
+      { unfold field_unknown. rewrite Hn. apply ValidateFacts.opt_eqb_false. intros E.
+        destruct Hx as [[st [S _]]|[_ [[_ Hd]|[_ Hd]]]].
+        - unfold refof in S. rewrite Est in S. cbn in S. unfold load_reference in S. cbn [table_of] in S.
+          rewrite name_idx_upper, <- Hpre, Hnone in S. discriminate.
+        - rewrite Hd in E. injection E as E. rewrite name_idx_upper in E. exact (name_idx_not_ST _ _ E).
+        - rewrite Hd in E. injection E as E. exact (upper_not_varies _ (upper_idem _) E). }
+      rewrite U, Hn'. cbn [ref_or_load]. now rewrite Hnone. }
+    exists (InvalidElement (f_name f)). split; [|intros []].
+    apply ValidateFacts.errors_of_In.
+    assert (Inc : incl [VE (InvalidElement (f_name f))] l).
+    { apply (ValidateFacts.seq_res_incl _ _ _ H). rewrite <- Ha. apply in_map. exact Hf. }
+    apply Inc. now left.
+  - (* a table segment, a field that its structure does not declare *)
+    cbn [ref_or_load] in H. rewrite Er in H. cbn [view_of] in H. unfold seg_seq in H.
+    assert (Zf : field_is_z f = false).
+    { unfold field_is_z. rewrite Hn'. exact (not_z_field_name (s_name s) i H3 Hu Z). }
+    assert (Hm : omem (f_name f) (row_names (map (row_view t) rows)) = false).
+    { rewrite Hn'. cbn [omem]. destruct (smem _ _) eqn:M; [|reflexivity]. exfalso.
+      apply ValidateFacts.smem_In in M. unfold row_names in M. apply in_flat_map in M. destruct M as [o [Ho Hin]].
+      destruct o as [vc|]; [|destruct Hin]. destruct Hin as [Hin|[]].
+      apply in_map_iff in Ho. destruct Ho as [row [Hv Hrow]].
+      destruct (row_view_ref t row vc Hv) as [Hrr Hrn].
+      apply In_nth_error in Hrow. destruct Hrow as [j Hj].
+      destruct (contiguous_nth (s_name s) FIE rows 1 j row Hc Hj) as [k' [mn [mx [Hrn' _]]]].
+      rewrite Hrn in Hrn'. injection Hrn' as _ Hm _ _. change (1 + j) with (S j) in Hm.
+      destruct Hrs as [_ Hb _]. pose proof (Hb j row (vc_ref vc) Hj Hrr) as B. rewrite <- Hm, Hin in B.
+      rewrite (Hbad _ Hn') in B. discriminate. }
+    destruct (ValidateFacts.check_seq_foreign _ _ _ _ _ _ _ _ _ _ H Hf Zf Hm) as [names [Hin _]].
+    exists (InvalidChildren (Some (s_name s)) names). split; [exact Hin|intros []].
+Qed.
+
+End Final.
+
+(* C05, segment level: a STRICT-parsed segment (any text, delimiters, leaf function) only draws
+   "Missing required child" from the validator, under the two side conditions *)
+Theorem strict_enforces e leaf text s e' errs :
+  parse_segment t STRICT e leaf text None = Ok s -> strict_side s ->
+  validate_errors t e' s = Ok errs -> Forall is_missing_required errs.
+Proof.
+  intros H Hside Hv. pose proof (sp_inv anyx _ _ s (parse_segment_S e leaf text) H) as P.
+  unfold validate_errors, validate_seg_log, lift_errors in Hv.
+  destruct (v_seg t e' (Some (st_reference (s_st s))) s) as [l|x] eqn:E; [|discriminate]. injection Hv as <-.
+  apply oklog_errors. exact (v_seg_oklog e' s l P Hside E).
+Qed.
+
+(* ... and the side condition is exact: a STRICT-parsed segment that violates it does draw another error *)
+Theorem strict_side_exact e leaf text s e' errs :
+  parse_segment t STRICT e leaf text None = Ok s -> validate_errors t e' s = Ok errs ->
+  (Forall is_missing_required errs <-> strict_sideb s = true).
+Proof.
+  intros H Hv. split; [|intros Hs; exact (strict_enforces e leaf text s e' errs H (strict_sideb_spec s Hs) Hv)].
+  intros F. destruct (strict_sideb s) eqn:B; [reflexivity|exfalso].
+  pose proof (sp_inv anyx _ _ s (parse_segment_S e leaf text) H) as P.
+  unfold validate_errors, validate_seg_log, lift_errors in Hv.
+  destruct (v_seg t e' (Some (st_reference (s_st s))) s) as [l|x] eqn:E; [|discriminate]. injection Hv as <-.
+  assert (Bad : exists f, In f (s_children s) /\
+            (if seg_is_z s then field_is_z f = false else forall n, f_name f = Some n -> by_name (s_st s) n = None)).
+  { unfold strict_sideb in B. destruct (seg_is_z s).
+    - assert (X : existsb (fun f => negb (field_is_z f)) (s_children s) = true).
+      { clear -B. induction (s_children s) as [|f l IH]; [discriminate|]. cbn in *. destruct (field_is_z f); cbn in *; auto. }
+      apply existsb_exists in X. destruct X as [f [Hf Hz]]. exists f. split; [exact Hf|]. now apply negb_true_iff.
+    - assert (X : existsb (fun f => negb (match f_name f with Some n => opt_is_some (by_name (s_st s) n) | None => false end)) (s_children s) = true).
+      { clear -B. induction (s_children s) as [|f l IH]; [discriminate|]. cbn [forallb existsb] in *.
+        destruct (match f_name f with Some n => opt_is_some (by_name (s_st s) n) | None => false end); cbn in *; auto. }
+      apply existsb_exists in X. destruct X as [f [Hf Hz]]. exists f. split; [exact Hf|].
+      intros n Hn. rewrite Hn in Hz. destruct (by_name (s_st s) n); [discriminate|reflexivity]. }
+  destruct Bad as [f [Hf Hbad]].
+  destruct (v_seg_side_necessary e' s l P E f Hf Hbad) as [x [Hx Hnm]].
+  rewrite Forall_forall in F. exact (Hnm (F x Hx)).
+Qed.
+
 End VS.
